@@ -2,6 +2,7 @@
 
 A program is a nested tuple AST mirroring coq/NV/Lang/Ast.v:
   expr: ('num', z) ('bool', b) ('str', bytes) ('var', n) ('un', op, e) ('bin', op, a, b) ('call', f, [e..]) ('cond', c, a, b)
+        ('arr', [e..]) ('at', a, i) ('len', a)          -- immutable arrays of ints, type 'arr' (array<int>)
   stmt: ('skip',) ('seq', s1, s2) ('let', mut, x, ty, e) ('set', x, e) ('if', c, s1, s2) ('while', c, s)
         ('for', x, lo, hi, s) ('break',) ('continue',) ('ret', e|None) ('print', nl, e) ('assert', e) ('expr', e)
   fn:   dict(name=n, params=[(x, ty)], ret=ty, body=stmt, shadow=[stmt...])
@@ -47,6 +48,11 @@ class Cfg:
         self.same_scope_redeclare = False    # a second let of a name already declared in the SAME block
         self.shadow_same_mut = True          # a shadowing let keeps the mutability of the shadowed variable
         self.self_ref_shadow = True          # shadowing let whose initialiser reads the shadowed variable
+        self.arrays = False                  # array<int> values: literals, (at a i), (array_length a), lets/params/returns/globals
+        self.oob = False                     # deliberately out-of-range (at a i) now and then (the run ends in the trap)
+        self.at_on_call = False              # (at (f ..) i): array operand that is neither a variable nor a literal
+        self.for_bound_mutated = False       # a for loop whose body assigns a variable its range bound reads
+        self.literal_first_effect = True     # a call as FIRST element of an array literal (the compile-time evaluator evaluates it twice)
         self.__dict__.update(kw)
 
 
@@ -73,6 +79,8 @@ class Gen:
                 self.f('boundary_literal')
                 return ('num', r.choice(BOUNDARY))
             return ('num', r.randrange(-20, 100))
+        if ty == 'arr':
+            return ('arr', [('num', r.randrange(-9, 100)) for _ in range(r.randrange(1, 5))])
         return ('bool', r.random() < 0.5)
 
     def gen_expr(self, ty, depth, sc, pure=False):
@@ -85,11 +93,23 @@ class Gen:
             if vars_ and r.random() < 0.65:
                 return ('var', r.choice(vars_))
             return self.lit(ty)
+        if ty == 'int' and self.c.arrays and r.random() < 0.16:
+            return self.gen_array_use(depth, sc, pure)
         k = r.random()
         callable_ = [f for f in sc['fns'] if f['ret'] == ty and (not pure or not f['effect'])]
         if callable_ and k < 0.22 and (self.c.effects_in_operands or not sc.get('in_operand')):
             f = r.choice(callable_)
             return self.gen_call(f, depth, sc, pure)
+        if ty == 'arr':
+            if k < 0.7:
+                return self.gen_arr_literal(depth, sc, pure)
+            if self.c.cond_expr and k < 0.85:
+                self.f('cond_arr')
+                return ('cond', self.gen_expr('bool', depth - 1, sc, pure), self.gen_expr('arr', depth - 1, sc, pure),
+                        self.gen_expr('arr', depth - 1, sc, pure))
+            if vars_:
+                return ('var', r.choice(vars_))
+            return self.gen_arr_literal(depth, sc, pure)
         if ty == 'int':
             if k < 0.75:
                 op = r.choice(ARITH)
@@ -151,6 +171,72 @@ class Gen:
             self.f('effect_in_operand')
         return ('call', f['name'], args)
 
+    # ---------------------------------------------------------------- arrays
+    def gen_arr_literal(self, depth, sc, pure=False, n=None):
+        r = self.r
+        n = r.randrange(1, 5) if n is None else n
+        es, eff = [], 0
+        for k in range(n):
+            e = self.gen_expr('int', max(depth - 1, 0), dict(sc, in_operand=True),
+                              pure=pure or (not self.c.multi_effect_args and eff >= 1) or (k == 0 and not self.c.literal_first_effect))
+            if k == 0 and calls_any(e) and not self.c.literal_first_effect:
+                e = self.gen_expr('int', 0, dict(sc, in_operand=True), True)       # a variable or a literal
+            if k == 0 and calls_any(e):
+                self.f('literal_first_call')
+            if has_effect(e, sc['fns_by_name']):
+                eff += 1
+            es.append(e)
+        if eff >= 2:
+            self.f('multi_effect_args')
+        self.f('arr_literal')
+        return ('arr', es)
+
+    def gen_array_use(self, depth, sc, pure=False):
+        """an int made from an array: (array_length a) or (at a i), the index in range unless cfg.oob strikes"""
+        r = self.r
+        newest = {}
+        for (x, t, m) in sc['vars']:
+            newest[x] = t
+        avars = [x for x, t in newest.items() if t == 'arr']
+        alen = sc.get('alen', {})
+        if r.random() < 0.3:
+            self.f('array_length')
+            return ('len', self.gen_expr('arr', depth - 1, dict(sc, in_operand=True), pure))
+        # the array operand of at: a variable or a non-empty literal (what the real checker can type), optionally a call
+        k = r.random()
+        callable_ = [f for f in sc['fns'] if f['ret'] == 'arr' and (not pure or not f['effect'])]
+        if self.c.at_on_call and callable_ and k < 0.2:
+            self.f('at_on_call')
+            a, n = self.gen_call(r.choice(callable_), depth, sc, pure), None
+        elif avars and k < 0.75:
+            x = r.choice(avars)
+            a, n = ('var', x), alen.get(x)
+        else:
+            a = self.gen_arr_literal(depth, sc, pure)
+            n = len(a[1])
+        self.f('at')
+        if self.c.oob and r.random() < 0.05:
+            self.f('oob')
+            if n is not None:
+                return ('at', a, ('num', r.choice([n, n + 1, -1, -n - 1, 2**32 + (n - 1 if n else 0), INT64_MAX, INT64_MIN + 1, 2**31])))
+            if a[0] == 'var':
+                return ('at', a, r.choice([('len', a), ('num', -1), ('bin', 'add', ('len', a), ('num', 2**32))]))
+        if n is not None and n > 0:
+            eff_a = has_effect(a, sc['fns_by_name'])
+            if r.random() < 0.7:
+                return ('at', a, ('num', r.randrange(0, n)))
+            # a computed index that stays in range: (% e n) is in -(n-1) .. n-1, squared-free: ((e % n) + n) % n
+            e = self.gen_expr('int', max(depth - 2, 0), dict(sc, in_operand=True), pure=pure or (eff_a and not self.c.multi_effect_args))
+            if eff_a and has_effect(e, sc['fns_by_name']):
+                self.f('multi_effect_args')
+            return ('at', a, ('bin', 'mod', ('bin', 'add', ('bin', 'mod', e, ('num', n)), ('num', n)), ('num', n)))
+        if a[0] == 'var':
+            # length unknown here: guard the access
+            K = r.randrange(0, 4)
+            self.f('guarded_at')
+            return ('cond', ('bin', 'lt', ('num', K), ('len', a)), ('at', a, ('num', K)), self.lit('int'))
+        return ('len', a)
+
     # ---------------------------------------------------------------- statements
     def seq(self, ss):
         ss = [s for s in ss if s[0] != 'skip']
@@ -163,7 +249,8 @@ class Gen:
 
     def gen_block(self, sc, depth, n, in_loop=None, ret=None):
         """returns stmt; sc is copied so that lets do not leak"""
-        sc = dict(sc, vars=list(sc['vars']), declared_here=set(sc.pop('predeclared', ())) if 'predeclared' in sc else set())
+        sc = dict(sc, vars=list(sc['vars']), declared_here=set(sc.pop('predeclared', ())) if 'predeclared' in sc else set(),
+                  alen=dict(sc.get('alen', {})))
         ss = []
         for _ in range(n):
             ss.append(self.gen_stmt(sc, depth, in_loop, ret))
@@ -179,7 +266,13 @@ class Gen:
         muts = [(x, t) for x, (t, m) in newest.items() if m and x not in sc.get('frozen', ())]
         if k < 0.22:
             ty = r.choice(['int', 'int', 'bool'])
+            if self.c.arrays and r.random() < 0.3:
+                ty = 'arr'
+                self.f('let_arr')
             e = self.gen_expr(ty, ed, sc)
+            if ty == 'arr' and r.random() < 0.08:
+                e = ('arr', [])          # the empty literal: typed by the annotation of the let
+                self.f('empty_literal')
             same = sorted(set(x for (x, t, m) in sc['vars'] if self.c.shadow_other_type or t == ty))
             if not self.c.same_scope_redeclare:
                 same = [x for x in same if x not in sc.get('declared_here', ())]
@@ -207,6 +300,12 @@ class Gen:
                 if prev:
                     mut = prev[-1]       # the type checker never pops block scopes: a later `set` would see this binding
             sc['vars'].append((x, ty, mut))
+            if self.c.arrays:
+                al = sc.setdefault('alen', {})
+                if ty == 'arr' and not mut and e[0] == 'arr':
+                    al[x] = len(e[1])
+                else:
+                    al.pop(x, None)
             sc.setdefault('declared_here', set()).add(x)
             if x in sc.get('frozen', ()):
                 sc['frozen'] = tuple(y for y in sc['frozen'] if y != x)
@@ -216,6 +315,9 @@ class Gen:
             return ('set', x, self.gen_expr(t, ed, sc))
         if k < 0.52:
             e = self.gen_expr(r.choice(['int', 'int', 'bool']), ed, sc)
+            if self.c.arrays and r.random() < 0.15:
+                e = self.gen_expr('arr', ed, sc)
+                self.f('print_arr')
             if self.c.strings and r.random() < 0.2:
                 e = ('str', self.gen_string())
             return ('print', r.random() < 0.8, e)
@@ -245,6 +347,33 @@ class Gen:
             self.f('while')
             return ('seq', ('let', True, cvar, 'int', ('num', 0)),
                     ('while', ('bin', 'lt', ('var', cvar), ('num', K)), ('seq', inc, body)))
+        if k < 0.84 and depth > 0 and self.c.arrays and r.random() < 0.35:
+            # walk an array by index: for i in (range 0 (array_length a)) { (println (at a i)) ... }
+            newest = {}
+            for (y, t, m) in sc['vars']:
+                newest[y] = t
+            avars = [y for y, t in newest.items() if t == 'arr']
+            pre = []
+            if avars and r.random() < 0.7:
+                a = r.choice(avars)
+            else:
+                a = self.fresh()
+                lit = self.gen_arr_literal(2, sc)
+                pre = [('let', False, a, 'arr', lit)]
+                sc['vars'].append((a, 'arr', False))
+                sc.setdefault('alen', {})[a] = len(lit[1])
+                sc.setdefault('declared_here', set()).add(a)
+            x = self.fresh()
+            sub = dict(sc, vars=sc['vars'] + [(x, 'int', False)], depth=sc.get('depth', 0) + 1)
+            amut = any(m for (y, t, m) in sc['vars'] if y == a)
+            if amut and self.c.for_bound_mutated:
+                self.f('for_bound_mutated')      # the body may assign the array the bound (array_length a) reads
+            else:
+                sub['frozen'] = tuple(sc.get('frozen', ())) + (a,)
+            body = self.gen_block(sub, depth - 1, r.randrange(0, 3), 'for', ret)
+            self.f('for_over_array')
+            loop = ('for', x, ('num', 0), ('len', ('var', a)), self.seq([('print', True, ('at', ('var', a), ('var', x))), body]))
+            return self.seq(pre + [loop])
         if k < 0.84 and depth > 0:
             x = self.fresh()
             lo = r.randrange(-2, 3)
@@ -294,6 +423,8 @@ class Gen:
             for _ in range(r.randrange(0, 3)):
                 g = self.fresh()
                 ty = r.choice(['int', 'bool'])
+                if self.c.arrays and r.random() < 0.3:
+                    ty = 'arr'
                 e = self.gen_expr(ty, 1, dict(sc, vars=[(x, t, False) for (x, t) in sc['globals']]), pure=True)
                 prog['globals'].append((g, ty, e))
                 sc['globals'].append((g, ty))
@@ -303,9 +434,13 @@ class Gen:
             name = self.fresh()
             kind = r.random()
             params = [(self.fresh(), r.choice(['int', 'int', 'bool'])) for _ in range(r.randrange(0, 4))]
+            if self.c.arrays:
+                params = [(x, 'arr' if r.random() < 0.25 else t) for (x, t) in params]
             if kind < 0.3:
                 # effectful function: prints a tag and its first int argument, returns a value
                 ret = r.choice(['int', 'bool'])
+                if self.c.arrays and r.random() < 0.25:
+                    ret = 'arr'
                 fsc = dict(sc, vars=[(g, t, False) for (g, t) in sc['globals']] + [(x, t, False) for (x, t) in params])
                 body = self.seq([('print', True, ('num', 1000 + name))] +
                                 [('print', True, ('var', x)) for (x, t) in params[:1]] +
@@ -326,6 +461,8 @@ class Gen:
                 self.f('recursive_fn')
             else:
                 ret = r.choice(['int', 'bool', 'void']) if self.c.void_fns else r.choice(['int', 'bool'])
+                if self.c.arrays and r.random() < 0.25:
+                    ret = 'arr'
                 fsc = dict(sc, vars=[(g, t, False) for (g, t) in sc['globals']] + [(x, t, False) for (x, t) in params])
                 stmts = self.gen_block(dict(fsc, predeclared=[x for (x, t) in params]), self.c.max_depth - 1, r.randrange(1, self.c.max_stmts), None, ret)
                 # the final return must see only function-level variables: generate it in the function scope
@@ -354,6 +491,32 @@ def mentions(e, x):
         return any(mentions(a, x) for a in e[1:])
     if t == 'call':
         return any(mentions(a, x) for a in e[2])
+    if t == 'arr':
+        return any(mentions(a, x) for a in e[1])
+    if t == 'at':
+        return mentions(e[1], x) or mentions(e[2], x)
+    if t == 'len':
+        return mentions(e[1], x)
+    return False
+
+
+def calls_any(e):
+    """does the expression contain a call (effectful or not)"""
+    t = e[0]
+    if t == 'call':
+        return True
+    if t == 'un':
+        return calls_any(e[2])
+    if t == 'bin':
+        return calls_any(e[2]) or calls_any(e[3])
+    if t == 'cond':
+        return any(calls_any(a) for a in e[1:])
+    if t == 'arr':
+        return any(calls_any(a) for a in e[1])
+    if t == 'at':
+        return calls_any(e[1]) or calls_any(e[2])
+    if t == 'len':
+        return calls_any(e[1])
     return False
 
 
@@ -370,6 +533,12 @@ def has_effect(e, fns):
     if t == 'call':
         f = fns.get(e[1])
         return (f is None or f.get('effect', True)) or any(has_effect(a, fns) for a in e[2])
+    if t == 'arr':
+        return any(has_effect(a, fns) for a in e[1])
+    if t == 'at':
+        return has_effect(e[1], fns) or has_effect(e[2], fns)
+    if t == 'len':
+        return has_effect(e[1], fns)
     return True
 
 
@@ -406,7 +575,7 @@ def fname(n):
 
 
 def tyname(t):
-    return dict(int='int', bool='bool', void='void', str='string')[t]
+    return dict(int='int', bool='bool', void='void', str='string', arr='array<int>')[t]
 
 
 def nano_str(b):
@@ -464,6 +633,12 @@ def expr_nano(e, st, top=True):
         return '(' + ' '.join([fname(e[1])] + [expr_nano(a, st, False) for a in e[2]]) + ')'
     if t == 'cond':
         return '(cond (%s %s) (else %s))' % (expr_nano(e[1], st, False), expr_nano(e[2], st, False), expr_nano(e[3], st, False))
+    if t == 'arr':
+        return '[' + ', '.join(expr_nano(a, st, False) for a in e[1]) + ']'
+    if t == 'at':
+        return '(at %s %s)' % (expr_nano(e[1], st, False), expr_nano(e[2], st, False))
+    if t == 'len':
+        return '(array_length %s)' % expr_nano(e[1], st, False)
     raise ValueError(e)
 
 
@@ -553,6 +728,12 @@ def expr_sexp(e):
         return '(call %x%s)' % (e[1], ''.join(' ' + expr_sexp(a) for a in e[2]))
     if t == 'cond':
         return '(cond %s %s %s)' % (expr_sexp(e[1]), expr_sexp(e[2]), expr_sexp(e[3]))
+    if t == 'arr':
+        return '(arr%s)' % ''.join(' ' + expr_sexp(a) for a in e[1])
+    if t == 'at':
+        return '(at %s %s)' % (expr_sexp(e[1]), expr_sexp(e[2]))
+    if t == 'len':
+        return '(len %s)' % expr_sexp(e[1])
     raise ValueError(e)
 
 
@@ -607,6 +788,12 @@ def size_of(prog):
             return 1 + sum(se(a) for a in e[2])
         if t == 'cond':
             return 1 + se(e[1]) + se(e[2]) + se(e[3])
+        if t == 'arr':
+            return 1 + sum(se(a) for a in e[1])
+        if t == 'at':
+            return 1 + se(e[1]) + se(e[2])
+        if t == 'len':
+            return 1 + se(e[1])
         return 1
 
     def ss(s):
@@ -636,7 +823,7 @@ def size_of(prog):
 if __name__ == '__main__':
     import sys
     seed = int(sys.argv[1]) if len(sys.argv) > 1 else 1
-    g = Gen(random.Random(seed))
+    g = Gen(random.Random(seed), Cfg(arrays='arrays' in sys.argv, oob='oob' in sys.argv))
     p = g.gen_program()
     print(to_nano(p, sys.argv[2] if len(sys.argv) > 2 else 'prefix', random.Random(seed)))
     print('#', to_sexp(p))
